@@ -106,9 +106,13 @@ def generate(rng, tier="quick"):
     tok = "%04x" % rng.randrange(1 << 16)
     spath = "schema-%s.json" % tok
     sstate = rng.choice([None] * 14 + ["invalid", "invalid", "fs_enoent", "fs_torn", "fs_empty", "fs_bitflip",
-                                        "fs_bad_utf8"])
+                                        "fs_bad_utf8", "scalar"])
     if sstate == "invalid":
         schema = break_schema(rng, schema)
+    elif sstate == "scalar":
+        # valid JSON, but not an object: booleans are schemas in drafts 6/7, the rest never is
+        schema = rng.choice([True, False, True, [], "schema", 3, None])
+        sstate = None
     sgood = json.dumps(schema, indent=rng.choice([None, 1])).encode("utf-8")
     fs = {}
     sb = apply_fault(rng, sgood, None if sstate == "invalid" else sstate)
@@ -124,7 +128,7 @@ def generate(rng, tier="quick"):
         schema = dict(schema)
         schema["properties"] = dict(schema.get("properties", {}), r={"$ref": target + "#/definitions/x"})
         fs[spath] = {"bytes": b64(json.dumps(schema).encode("utf-8")), "fault": None}
-    n = rng.choice([0, 1, 2, 2, 3, 3, 4, 5, 6])
+    n = rng.choice([0, 1, 2, 2, 3, 3, 4, 5, 6, 9])
     use_stdin = n == 0
     fault_kinds = [None] * 10 + ["fs_enoent", "fs_enoent", "fs_torn", "fs_torn", "fs_bitflip", "fs_bitflip",
                                  "fs_empty", "fs_bad_utf8", "fs_bom"]
@@ -136,7 +140,9 @@ def generate(rng, tier="quick"):
     for i in range(max(n, 1)):
         val = world["instances"][i % len(world["instances"])]
         if rng.random() < 0.3:
-            val = rng.choice([{}, [], {"a": 1}, "ab", 1, None, {"a": {"b": [1, "x"]}, "r": 5}])
+            val = rng.choice([{}, [], {"a": 1}, "ab", 1, None, {"a": {"b": [1, "x"]}, "r": 5},
+                              {"a": "{0} {x} {", "b": "100%s %d %", "c": ["}{", "{error.message}"]},
+                              ["{file_name}", "%(x)s", {"a": "{}"}]])
         good = json.dumps(val, indent=rng.choice([None, None, 2])).encode("utf-8")
         if rng.random() < 0.1:
             good = json.dumps({"kéy": "väl €", "a": val}, ensure_ascii=False).encode("utf-8")
@@ -159,6 +165,8 @@ def generate(rng, tier="quick"):
             instances.append(path)
             if ent is not None:
                 fs[path] = ent
+    if not use_stdin and len(instances) >= 2 and rng.random() < 0.12:
+        instances.append(rng.choice(instances))          # the same path may be listed twice
     output = rng.choice(["plain", "plain", "plain", "pretty"])
     error_format = None
     if output == "plain" and rng.random() < 0.65:
@@ -364,9 +372,9 @@ def execute(scn):
                     continue
                 if errs:
                     expect_ok = False
-                    expected_msgs[p] = [e.message for e in errs]
+                    expected_msgs.setdefault(p, []).extend(e.message for e in errs)
                     if fmt:
-                        expected_records[p] = [fmt.format(file_name=p, error=e) for e in errs]
+                        expected_records.setdefault(p, []).extend(fmt.format(file_name=p, error=e) for e in errs)
                     else:
                         expected_records[p] = None
                 else:
@@ -429,9 +437,9 @@ def execute(scn):
                     # the library's own default format, as parse_args filled it in (never hard-coded here)
                     dfmt = (default_format or "").rstrip("\n")
                     want_lines = []
-                    for p in list(expected_msgs):
+                    for p in must_open:                      # with multiplicity: a path may be listed twice
                         c = classify(scn, p)
-                        if p == scn["schema_path"] or c[0] != "ok":
+                        if p not in expected_msgs or c[0] != "ok":
                             continue
                         resolver = V.RefResolver(base_uri=scn["base_uri"], referrer=schema) if scn["base_uri"] is not None else None
                         for e in cls(schema, resolver=resolver).iter_errors(c[1]):
@@ -468,10 +476,11 @@ def execute(scn):
                 if stdout != "":
                     viol.append({"oracle": "plain-mode-wrote-stdout", "where": 0, "detail": {"stdout": stdout[:200]}})
             else:
-                for p in valid_paths:
-                    if stdout.count(p) != 1:
+                for p in sorted(set(valid_paths)):
+                    if stdout.count(p) != valid_paths.count(p):
                         viol.append({"oracle": "pretty-success-header-count", "where": 0,
-                                     "detail": {"path": p, "count": stdout.count(p), "stdout": stdout[:300]}})
+                                     "detail": {"path": p, "count": stdout.count(p), "listed": valid_paths.count(p),
+                                                "stdout": stdout[:300]}})
                         break
                 for p in must_open + [scn["schema_path"]]:
                     if p not in valid_paths and p != "<stdin>" and p in stdout:
